@@ -443,6 +443,33 @@ void partB(EnumCtx &ctx, int mask, int variant)
         ctx.violation(QStringLiteral("C20/hash-changes-between-presences"), QStringLiteral("setClientPresence advertises %1, initial presence %2").arg(ver2, ver), cj);
     }
     queryAndCompare(node2 + QLatin1Char('#') + ver2, ver2, QStringLiteral("setClientPresence"));
+    // the capabilities change at run time (a manager is added, the software-info form is replaced) and the application
+    // re-announces a COPY of the stored presence: the advertised hash must describe the new disco#info answer
+    if (!(mask & 32)) {
+        rig.client->addExtension(new QXmppAttentionManager);
+    } else {
+        QXmppDataForm form;
+        form.setType(QXmppDataForm::Result);
+        QXmppDataForm::Field ft(QXmppDataForm::Field::HiddenField);
+        ft.setKey(QStringLiteral("FORM_TYPE"));
+        ft.setValue(QStringLiteral("urn:xmpp:dataforms:softwareinfo"));
+        QXmppDataForm::Field os(QXmppDataForm::Field::TextSingleField);
+        os.setKey(QStringLiteral("os"));
+        os.setValue(QStringLiteral("Plan 9"));
+        form.setFields({ ft, os });
+        disco->setClientInfoForm(form);
+    }
+    QXmppPresence copy = rig.client->clientPresence();
+    copy.setStatusText(QStringLiteral("back"));
+    rig.client->setClientPresence(copy);
+    rig.sync();
+    QString node3;
+    const QString ver3 = capsOfLastPresence(&node3);
+    if (ver3 == ver2) {
+        ctx.violation(QStringLiteral("C20/hash-not-updated-after-capabilities-changed"), QStringLiteral("the capabilities changed at run time but the re-announced presence still advertises %1").arg(ver3), cj);
+    }
+    queryAndCompare(node3 + QLatin1Char('#') + ver3, ver3, QStringLiteral("presence re-announced from a copy after the capabilities changed"));
+    ctx.count(QStringLiteral("runtime_capability_changes"));
 }
 
 }  // namespace
